@@ -88,10 +88,13 @@ package epubdoc
 //@ func readPart results (data, err)
 //@   property C02
 //@   ensures member_size_is_bounded: !err ==> len(data) <= maxPartSize
+// (C18) the member that is read is the one whose name IS the resolved href (archive names are case-sensitive: a
+// member that differs in case is another part)
 //@ func (*Reader) readFile
-//@   property C02
+//@   property C02, C18
 //@   flags callsites
 //@   callsite io.ReadAll(x) requires members_are_read_through_readPart: false
+//@   callsite Open() requires the_member_with_exactly_this_name: f.Name == name
 
 // ---- C02: the recursive walks of the navigation document run only on a tree whose depth has been checked ----
 // navTreeDepthExceeds walks x/net/html nodes (opaque here): its meaning is assumed, its use is checked
